@@ -396,13 +396,28 @@ class Program(object):
                 rest_evs = b.elems[idx + 1:]
                 # `r = helper(..)` directly followed by the branch: the local that receives the result
                 res_vars = {x.get("var") for x in rest_evs if x["k"] == "decl" and x.get("var") and ((x.get("init") or {}).get("t") or "").strip() == (call.get("t") or "").strip()}
-                if all(x["k"] in ("cast", "use") or (x["k"] == "decl" and x.get("var") in res_vars) for x in rest_evs):
+                if not loop and all(x["k"] in ("cast", "use") or (x["k"] == "decl" and x.get("var") in res_vars) for x in rest_evs):
                     on_call = ("c:" + (call.get("callee") or "")) in (t_.get("refs") or [])
                     on_var = bool(res_vars) and any(("v:" + v_) in (t_.get("leafrefs") or t_.get("refs") or []) for v_ in res_vars)
                     if t_ and (on_call or on_var) and len({str(r_.get("const")) + (r_.get("t") or "") for r_ in gflat.events("return")} | {str(r_.get("const")) + (r_.get("t") or "") for r_ in gflat.events("iret") if r_.get("of") == gflat.id}) > 1:
                         # the caller branches on what the helper returned: every path of the helper that returns a constant is led
                         # straight to the branch that constant selects (see thread_returns); what is left is not modelled
                         thread = {"call": call, "vars": res_vars, "helper": gflat, "irets": []}
+                if thread is None and not loop and t_:
+                    # the helper branches on the very value it returns, and the caller branches on it again: which path of the helper
+                    # goes with which branch of the caller is not modelled
+                    rvs_ = {(r_.get("val") or {}).get("v") for r_ in list(gflat.events("return")) + [x for x in gflat.events("iret") if x.get("of") == gflat.id]} - {None}
+                    own_ = any(("v:" + rv_) in ((gb_.term or {}).get("refs") or []) for gb_ in gflat.blocks.values() for rv_ in rvs_)
+                    again_ = ("c:" + (call.get("callee") or "")) in (t_.get("refs") or []) or any(("v:" + v_) in (t_.get("refs") or []) for v_ in res_vars)
+                    if own_ and again_:
+                        nf.__dict__.setdefault("unmodelled", []).append("the result of %s is tested inside it and again by its caller at line %s (which of its paths goes with which branch is not modelled)" % (
+                            gflat.base.rsplit("::", 1)[-1] if not gflat.is_lambda else "the lambda at line %s" % gflat.line, t_.get("l")))
+                # `return helper(..);`: every path of the helper ends in its own copy of that return statement, which returns what the
+                # path returned
+                rets_ = [x for x in rest_evs if x["k"] == "return"]
+                if not loop and len(rets_) == 1 and ((rets_[0].get("val") or {}).get("t") or rets_[0].get("t") or "").strip() == (call.get("t") or "").strip() and (call.get("t") or "").strip() \
+                        and all(x["k"] in ("cast", "use", "return", "dtor", "member") for x in rest_evs):
+                    thread = {"call": call, "vars": set(), "helper": gflat, "irets": [], "ret": True}
                 for i, p_ in enumerate(gflat.params):
                     args = call.get("args") or []
                     if i < len(args) and p_.get("name"):
@@ -423,7 +438,7 @@ class Program(object):
                     if a_.get("v") and (a_.get("t") or "").strip() in (a_["v"], "std::move(%s)" % a_["v"]):
                         ren[pn] = (a_["v"], a_.get("vd"))
                         txt[pn] = a_["v"]
-                    elif a_.get("f") and re.match(r"^(this->)?\w+$", (a_.get("t") or "").strip()):
+                    elif a_.get("f") and re.match(r"^(this->)?\w+((\.|->)\w+)*$", (a_.get("t") or "").strip()):
                         # handed a member of the caller's object: inside the helper the parameter *is* that member
                         refmap[pn] = {k_: v_ for k_, v_ in a_.items() if k_ in ("t", "f", "b", "ft", "ty", "root", "rootT", "rootd")}
                         ren[pn] = (pn + suffix, None)
@@ -523,6 +538,29 @@ class Program(object):
         t_ = rest.term or {}
         call, helper = th["call"], th["helper"]
         ctext = (call.get("t") or "").strip()
+        if th.get("ret"):
+            made = {}
+            for bid in th["irets"]:
+                blk = nf.blocks[bid]
+                ir = [e for e in blk.elems if e["k"] == "iret" and e.get("of") == helper.id][-1]
+                key = (repr(ir.get("const")), ir.get("t"))
+                if key not in made:
+                    elems = []
+                    for e in rest.elems:
+                        e2 = clone_ev(e)
+                        if e["k"] == "return":
+                            for k_ in ("const", "val", "refs", "arms"):
+                                e2.pop(k_, None)
+                                if ir.get(k_) is not None:
+                                    e2[k_] = ir[k_]
+                            e2["t"] = ir.get("t")
+                            e2["via"] = helper.id
+                        elems.append(e2)
+                    made[key] = mk(rest.id - span * 0.04 * (len(made) + 1) / 16.0, elems, rest.succs, rest.term, None)
+                blk.succs = [made[key].id if s_ == rest.id else s_ for s_ in blk.succs]
+            if made and not any(rest.id in x.succs for x in nf.blocks.values() if x is not rest):
+                del nf.blocks[rest.id]
+            return
 
         def is_subject(ref):
             ref = ref or {}
@@ -585,8 +623,11 @@ class Program(object):
             key = repr(c)
             if key not in made:
                 nid = rest.id - span * 0.04 * (len(made) + 1) / 8.0
-                made[key] = mk(nid, [clone_ev(e) for e in rest.elems], [rest.succs[k_]], None, None)
+                # the copy keeps the branch, with only the successor this constant selects
+                made[key] = mk(nid, [clone_ev(e) for e in rest.elems], [s_ if i_ == k_ else None for i_, s_ in enumerate(rest.succs)], dict(rest.term), None)
             blk.succs = [made[key].id if s_ == rest.id else s_ for s_ in blk.succs]
+        if not left and made and not any(rest.id in x.succs for x in nf.blocks.values() if x is not rest):
+            del nf.blocks[rest.id]
         if left:
             nf.__dict__.setdefault("unmodelled", []).append("the result of %s is branched on at line %s (which of its paths goes with which branch is not modelled)" % (helper.base.rsplit("::", 1)[-1], t_.get("l")))
 
@@ -606,10 +647,8 @@ class Program(object):
 
     def lambdas_in(self, func):
         # for a flattened function: also the lambdas written in the helpers that were expanded into it
-        # (a lambda whose body was itself expanded in place is not listed: its events are events of func)
-        inl = set(getattr(func, "inlined_funcs", ()))
-        owners = {func.id} | inl
-        return [f for f in self.funcs.values() if f.parent in owners and f.id not in inl]
+        owners = {func.id} | set(getattr(func, "inlined_funcs", ()))
+        return [f for f in self.funcs.values() if f.parent in owners]
 
     def lambda_by_id(self, lid, ctx=None):
         # lambda ids are "lambda@file:line:col" possibly with "#in:<instantiation>" suffix
